@@ -24,6 +24,7 @@ type Engine struct {
 	pkgs  map[string]*packages.Package
 	prog  *ssa.Program
 	funcs map[string]*ssa.Function // canonical name -> function
+	neutralExtra map[string]bool // callees (short names) treated as heap-neutral in an optimistic re-encoding
 
 	files     []*ContractFile
 	contracts map[string]*FuncContract // canonical function name -> contract
